@@ -6,6 +6,8 @@
 package rig
 
 import (
+	"strings"
+	"strconv"
 	"bufio"
 	"context"
 	"encoding/binary"
@@ -74,6 +76,10 @@ type Carrier struct {
 	FreezeMs     int    `json:"freeze_ms,omitempty"`
 	ClientIP     string `json:"client_ip,omitempty"`
 	NoClientIP   bool   `json:"no_client_ip,omitempty"`
+	// Preamble: how the 8-byte token and the 8-byte ClientID are cut into WebSocket messages (the carrier
+	// is a byte stream: message boundaries carry no meaning). "" = one message each; coalesced = one
+	// 16-byte message; split:<k> = the 16 bytes cut after byte k (1..15); bytewise = sixteen messages
+	Preamble string `json:"preamble,omitempty"`
 }
 
 // Session is one model client.
@@ -460,13 +466,29 @@ func (r *Rig) dialOne(ctx context.Context, s *Session, id turbotunnel.ClientID, 
 		return nil, err
 	}
 	conn := websocketconn.New(ws)
-	if _, err := conn.Write(turbotunnel.Token[:]); err != nil {
-		conn.Close()
-		return nil, err
+	pre := append(append([]byte{}, turbotunnel.Token[:]...), id[:]...)
+	var preCuts []int
+	switch {
+	case spec.Preamble == "coalesced":
+		preCuts = nil
+	case spec.Preamble == "bytewise":
+		for k := 1; k < 16; k++ {
+			preCuts = append(preCuts, k)
+		}
+	case strings.HasPrefix(spec.Preamble, "split:"):
+		if k, err := strconv.Atoi(strings.TrimPrefix(spec.Preamble, "split:")); err == nil && k > 0 && k < 16 {
+			preCuts = []int{k}
+		}
+	default:
+		preCuts = []int{8}
 	}
-	if _, err := conn.Write(id[:]); err != nil {
-		conn.Close()
-		return nil, err
+	prev := 0
+	for _, k := range append(preCuts, 16) {
+		if _, err := conn.Write(pre[prev:k]); err != nil {
+			conn.Close()
+			return nil, err
+		}
+		prev = k
 	}
 	return &encapConn{ReadWriteCloser: conn, bw: bufio.NewWriter(conn), conv: conv, foreign: foreign}, nil
 }
